@@ -359,6 +359,14 @@ impl<VM: VMBinding> FreeListPageResource<VM> {
             self.mprotect(first, pages as _);
         }
 
+        #[cfg(mmtk_verif)]
+        crate::util::verif::rt::event(
+            crate::util::verif::rt::ev::PAGES_RELEASE,
+            0,
+            first.as_usize(),
+            pages as usize,
+        );
+
         self.common.accounting.release(pages as _);
         let freed = sync.free_list.free(page_offset as _, true);
         sync.pages_currently_on_freelist += pages as usize;
